@@ -23,6 +23,8 @@ def unhealthy(table, e):
         return True
     if fn == "dens" and not table["z"]:
         return True
+    if fn in ("roc", "flat", "att", "clim", "speed") and not table.get("hastime", True):
+        return True
     if fn == "spike" and p["method"] not in ("average", "differential"):
         return True
     return False
@@ -51,6 +53,9 @@ POOL_H = [
     lambda r: {"stream": "a", "fn": "dens", "p": {"st": [0, 1], "ft": [-1, 1]}},
     lambda r: {"stream": "b", "fn": "probe", "p": {"none": 0}},
     lambda r: {"stream": "a", "fn": "probe", "p": {"none": 0}},
+    lambda r: {"stream": "b", "fn": "probe2", "p": {"none": 0}},
+    lambda r: {"stream": "b", "fn": "valid", "p": {"lo": r.choice([NA, 1, 2]), "hi": r.choice([NA, 3, 6]), "sincl": r.random() < 0.5,
+                                                  "eincl": r.random() < 0.5, "kind": "num"}},
 ]
 POOL_F = [
     lambda r: {"stream": r.choice(["a", "b"]), "fn": "boom", "p": {"none": 0}},
@@ -67,7 +72,7 @@ def rand_table(r, nmax):
     for _ in range(n):
         t.append(cur)
         cur += r.choice([1, 5, 10, 10, 60])
-    tb = {"t": t, "data": {"a": [r.choice([0, 0, 1, 2, 5, 7]) for _ in range(n)],
+    tb = {"t": t, "hastime": True, "data": {"a": [r.choice([0, 0, 1, 2, 5, 7]) for _ in range(n)],
                            "b": [r.choice([0, 1, 1, 3, 6]) for _ in range(n)]},
           "z": [], "lat": [], "lon": []}
     if r.random() < 0.6:
@@ -79,11 +84,21 @@ def rand_table(r, nmax):
     if r.random() < 0.5:
         tb["lat"] = [r.randint(-20, 20) for _ in range(n)]
         tb["lon"] = [r.randint(-40, 40) for _ in range(n)]
+    if r.random() < 0.12:
+        tb["hastime"] = False        # the stream gets no time array: no windows possible
     return tb
 
 
 def rand_config(r, tb, faults):
     t = tb["t"]
+    if not tb.get("hastime", True):
+        ents, keys = [], set()
+        for _ in range(r.randint(1, 4)):
+            e = r.choice(POOL_F)(r) if (faults and r.random() < 0.4) else r.choice(POOL_H)(r)
+            if (e["stream"], e["fn"]) not in keys:
+                keys.add((e["stream"], e["fn"]))
+                ents.append(e)
+        return [{"win": [NA, NA], "entries": ents}]
     cuts = sorted(set([t[0]] + [r.choice(t) + r.choice([0, 0, 1, -1]) for _ in range(r.randint(0, 3))]))
     style = r.choice(["none", "partition", "partition", "holes", "overlap", "empty_first"])
     if style == "none":
@@ -193,6 +208,8 @@ def check(ctx):
         cases.append((tb, rand_config(g, tb, faults=(prop == "C18" or g.random() < 0.25))))
     for n, (tb, cfg) in enumerate(cases):
         fes = [f for f in fe_all if pipe_exec.applicable(f, tb, cfg)]
+        if not tb.get("hastime", True):
+            fes = [f for f in fes if f not in ("xarray_var",)]
         if ctx.quick:
             # every front end is visited round-robin; two per case
             fes = [fes[(n + k) % len(fes)] for k in range(2)] if prop != "C06" else [fes[n % len(fes)]]
